@@ -36,6 +36,30 @@ class Spelling(ast.NodeTransformer):
     OPERATOR_BIN = {'add': ast.Add, 'sub': ast.Sub, 'mul': ast.Mult, 'truediv': ast.Div, 'floordiv': ast.FloorDiv, 'mod': ast.Mod, 'pow': ast.Pow, 'matmul': ast.MatMult}
     OPERATOR_CMP = {'eq': ast.Eq, 'ne': ast.NotEq, 'lt': ast.Lt, 'le': ast.LtE, 'gt': ast.Gt, 'ge': ast.GtE, 'is_': ast.Is, 'is_not': ast.IsNot}
 
+    @staticmethod
+    def _getter_lambda(kind, node):
+        x = ast.Name(id='x__g', ctx=ast.Load())
+        args = ast.arguments(posonlyargs=[], args=[ast.arg(arg='x__g')], vararg=None, kwonlyargs=[], kw_defaults=[], kwarg=None, defaults=[])
+        pure = lambda e: all(isinstance(y, (ast.Name, ast.Constant, ast.Attribute, ast.Load, ast.UnaryOp, ast.USub, ast.Tuple)) for y in ast.walk(e))
+        if kind == 'itemgetter' and node.args and not node.keywords and all(pure(a) for a in node.args):
+            items = [ast.Subscript(value=x, slice=a, ctx=ast.Load()) for a in node.args]
+            body = items[0] if len(items) == 1 else ast.Tuple(elts=items, ctx=ast.Load())
+            return ast.Lambda(args=args, body=body)
+        if kind == 'attrgetter' and node.args and not node.keywords and all(isinstance(a, ast.Constant) and isinstance(a.value, str) and all(p_.isidentifier() for p_ in a.value.split('.')) for a in node.args):
+            def chain(path):
+                e = x
+                for p_ in path.split('.'):
+                    e = ast.Attribute(value=e, attr=p_, ctx=ast.Load())
+                return e
+            items = [chain(a.value) for a in node.args]
+            body = items[0] if len(items) == 1 else ast.Tuple(elts=items, ctx=ast.Load())
+            return ast.Lambda(args=args, body=body)
+        if kind == 'methodcaller' and node.args and isinstance(node.args[0], ast.Constant) and isinstance(node.args[0].value, str) and node.args[0].value.isidentifier() \
+                and all(pure(a) for a in node.args[1:]) and all(k.arg is not None and pure(k.value) for k in node.keywords):
+            body = ast.Call(func=ast.Attribute(value=x, attr=node.args[0].value, ctx=ast.Load()), args=list(node.args[1:]), keywords=list(node.keywords))
+            return ast.Lambda(args=args, body=body)
+        return None
+
     def visit_Attribute(self, node):
         self.generic_visit(node)
         # math.inf / math.pi / math.e / math.nan are the same floats as np.inf / np.pi / np.e (nan: any nan)
@@ -53,6 +77,17 @@ class Spelling(ast.NodeTransformer):
                 nm = f0.attr
             elif isinstance(f0, ast.Name) and f0.id in getattr(self, 'operator_names', {}):
                 nm = self.operator_names[f0.id]
+        # operator.itemgetter(i) / attrgetter('a') / methodcaller('m', ..) are the lambdas  x -> x[i] / x.a / x.m(..)
+        gname = None
+        if not any(isinstance(a, ast.Starred) for a in node.args):
+            if isinstance(f0, ast.Attribute) and isinstance(f0.value, ast.Name) and f0.value.id in getattr(self, 'operator_aliases', ()) and f0.attr in ('itemgetter', 'attrgetter', 'methodcaller'):
+                gname = f0.attr
+            elif isinstance(f0, ast.Name) and getattr(self, 'operator_names', {}).get(f0.id) in ('itemgetter', 'attrgetter', 'methodcaller'):
+                gname = self.operator_names[f0.id]
+        if gname is not None:
+            lam = self._getter_lambda(gname, node)
+            if lam is not None:
+                return ast.copy_location(lam, node)
         if nm is not None:
             if nm in self.OPERATOR_BIN and len(node.args) == 2:
                 return ast.copy_location(ast.BinOp(left=node.args[0], op=self.OPERATOR_BIN[nm](), right=node.args[1]), node)
@@ -1744,6 +1779,222 @@ def _walk_stmt_own(st):
         stack.extend(ast.iter_child_nodes(n))
 
 
+class GeneratorLoops:
+    """for T in _g(args): BODY    with _g a private generator (function or method) that has exactly one `yield E`:
+    the loop is replaced by _g's own body with `T = E ; BODY` in the place of the yield - the exact interleaving Python performs.
+
+    Mechanics: every consumer K gets its own procedure copy _g__each_K of the generator whose yield is the placeholder call __yield_K__(E); the loop becomes
+         if __consume_K__: _g__each_K(args)  else: T = __yielded_K__ ; BODY
+    the helper inliner expands the procedure call (renaming locals, binding parameters) and `splice` then moves the else-branch to the placeholder.  A marker that
+    is still unexpanded at the end is turned back into the loop as it was written."""
+    def __init__(self, tree):
+        self.tree = tree
+        self.saved = {}         # K -> (original For copy, procedure name)
+        self.k = 0
+
+    def prepare(self):
+        tree = self.tree
+        parents = {}
+        for n in ast.walk(tree):
+            for c in ast.iter_child_nodes(n):
+                parents[id(c)] = n
+        gens = {}
+        for c in [tree] + [n for n in tree.body if isinstance(n, ast.ClassDef)]:
+            for fn in c.body:
+                if not (isinstance(fn, ast.FunctionDef) and fn.name.startswith('_') and not fn.name.startswith('__')):
+                    continue
+                if fn.decorator_list and not (c is not tree and all(isinstance(d, ast.Name) and d.id == 'staticmethod' for d in fn.decorator_list)):
+                    continue
+                ys = [x for x in _walk_fn_own(fn) if isinstance(x, (ast.Yield, ast.YieldFrom))]
+                if len(ys) != 1 or not isinstance(ys[0], ast.Yield) or ys[0].value is None:
+                    continue
+                if any(isinstance(x, (ast.Try, ast.With, ast.FunctionDef, ast.Lambda, ast.ClassDef, ast.Global, ast.Nonlocal)) for x in _walk_fn_own(fn)):
+                    continue
+                if any(isinstance(x, ast.Return) and x.value is not None for x in _walk_fn_own(fn)):
+                    continue
+                # the yield must be an expression statement; find its chain of enclosing statements
+                chain, node = [], ys[0]
+                ystmt = parents.get(id(node))
+                if not (isinstance(ystmt, ast.Expr) and ystmt.value is node):
+                    continue
+                cur = ystmt
+                while cur is not fn:
+                    par = parents.get(id(cur))
+                    chain.append((par, cur))
+                    cur = par
+                if any(not isinstance(par, (ast.For, ast.While, ast.If, ast.FunctionDef)) for par, _ in chain):
+                    continue
+                in_loop = any(isinstance(par, (ast.For, ast.While)) for par, _ in chain)
+                # is the yield the last thing its innermost loop does in an iteration?
+                tail = True
+                for par, ch in chain:
+                    blk = par.body if any(x is ch for x in par.body) else par.orelse
+                    if blk[-1] is not ch:
+                        tail = False
+                    if isinstance(par, (ast.For, ast.While)):
+                        if blk is not par.body:
+                            tail = False
+                        break
+                gens.setdefault(fn.name, []).append((c, fn, ystmt, in_loop, tail))
+        gens = {k: v[0] for k, v in gens.items() if len(v) == 1}
+        if not gens:
+            return False
+        me = self
+        changed = [False]
+
+        class T(ast.NodeTransformer):
+            def __init__(self):
+                self.cls = []
+
+            def visit_ClassDef(self, n):
+                self.cls.append(n)
+                self.generic_visit(n)
+                self.cls.pop()
+                return n
+
+            def visit_For(self, node):
+                self.generic_visit(node)
+                call = node.iter
+                if node.orelse or not isinstance(call, ast.Call) or any(isinstance(a, ast.Starred) for a in call.args) or any(k.arg is None for k in call.keywords):
+                    return node
+                f = call.func
+                if isinstance(f, ast.Name):
+                    nm, is_m = f.id, False
+                elif isinstance(f, ast.Attribute) and isinstance(f.value, ast.Name) and f.value.id in ('self', 'cls'):
+                    nm, is_m = f.attr, True
+                else:
+                    return node
+                if nm not in gens:
+                    return node
+                c, fn, ystmt, in_loop, tail = gens[nm]
+                if is_m != (c is not me.tree):
+                    return node
+                # break / continue of BODY that belong to the consumer loop
+                def own_jumps(stmts):
+                    out = []
+                    stack = list(stmts)
+                    while stack:
+                        x = stack.pop()
+                        if isinstance(x, (ast.Break, ast.Continue)):
+                            out.append(x)
+                        if isinstance(x, (ast.For, ast.While, ast.FunctionDef, ast.Lambda, ast.ClassDef)):
+                            # jumps inside an inner loop belong to that loop (its else clause aside)
+                            stack.extend(getattr(x, 'orelse', []) if isinstance(x, (ast.For, ast.While)) else [])
+                            continue
+                        stack.extend(ast.iter_child_nodes(x))
+                    return out
+                jumps = own_jumps(node.body)
+                if any(isinstance(j, ast.Break) for j in jumps):
+                    return node
+                if jumps and not (in_loop and tail):
+                    return node
+                if any(isinstance(x, (ast.Yield, ast.YieldFrom)) for st in node.body for x in ast.walk(st)):
+                    return node
+                me.k += 1
+                K = me.k
+                proc = copy.deepcopy(fn)
+                proc.name = '%s__each_%d' % (fn.name, K)
+                # the copy's own yield statement
+                for x in ast.walk(proc):
+                    if isinstance(x, ast.Expr) and isinstance(x.value, ast.Yield):
+                        x.value = ast.Call(func=ast.Name(id='__yield_%d__' % K, ctx=ast.Load()), args=[x.value.value], keywords=[])
+                if proc.body and isinstance(proc.body[0], ast.Expr) and isinstance(proc.body[0].value, ast.Constant) and isinstance(proc.body[0].value.value, str) and len(proc.body) > 1:
+                    proc.body = proc.body[1:]
+                proc.returns = None
+                i = c.body.index(fn)
+                me.pending.append((c, fn, proc))
+                pcall = copy.deepcopy(call)
+                if isinstance(pcall.func, ast.Name):
+                    pcall.func.id = proc.name
+                else:
+                    pcall.func.attr = proc.name
+                bind = ast.Assign(targets=[node.target], value=ast.Name(id='__yielded_%d__' % K, ctx=ast.Load()))
+                marker = ast.If(test=ast.Name(id='__consume_%d__' % K, ctx=ast.Load()), body=[ast.Expr(value=pcall)], orelse=[bind] + node.body)
+                me.saved[K] = (copy.deepcopy(node), proc.name)
+                ast.copy_location(marker, node)
+                ast.fix_missing_locations(marker)
+                changed[0] = True
+                return marker
+        self.pending = []
+        T().visit(tree)
+        for c, fn, proc in self.pending:
+            ast.copy_location(proc, fn)
+            ast.fix_missing_locations(proc)
+            c.body.insert(c.body.index(fn) + 1, proc)
+        return changed[0]
+
+    def _markers(self):
+        for n in ast.walk(self.tree):
+            for fld in ('body', 'orelse', 'finalbody'):
+                blk = getattr(n, fld, None)
+                if isinstance(blk, list):
+                    for i, st in enumerate(blk):
+                        if isinstance(st, ast.If) and isinstance(st.test, ast.Name) and st.test.id.startswith('__consume_') and st.test.id.endswith('__'):
+                            yield blk, i, st, int(st.test.id[len('__consume_'):-2])
+            if isinstance(n, ast.Try):
+                for h in n.handlers:
+                    for i, st in enumerate(h.body):
+                        if isinstance(st, ast.If) and isinstance(st.test, ast.Name) and st.test.id.startswith('__consume_') and st.test.id.endswith('__'):
+                            yield h.body, i, st, int(st.test.id[len('__consume_'):-2])
+
+    def splice(self):
+        """markers whose procedure call has been expanded: move BODY to the placeholder"""
+        done = False
+        again = True
+        while again:
+            again = False
+            for blk, i, st, K in list(self._markers()):
+                if K not in self.saved:
+                    continue
+                pname = self.saved[K][1]
+                if any((isinstance(x, ast.Name) and x.id == pname) or (isinstance(x, ast.Attribute) and x.attr == pname) for b in st.body for x in ast.walk(b)):
+                    continue            # not expanded (yet)
+                sites = [(x, y) for b in st.body for x in ast.walk(b) for fld in ('body', 'orelse', 'finalbody') for y in [getattr(x, fld, None)] if isinstance(y, list)
+                         and any(isinstance(z, ast.Expr) and isinstance(z.value, ast.Call) and isinstance(z.value.func, ast.Name) and z.value.func.id == '__yield_%d__' % K for z in y)]
+                top = [j for j, z in enumerate(st.body) if isinstance(z, ast.Expr) and isinstance(z.value, ast.Call) and isinstance(z.value.func, ast.Name) and z.value.func.id == '__yield_%d__' % K]
+                holder = None
+                if top:
+                    holder = st.body
+                elif len(sites) == 1:
+                    holder = sites[0][1]
+                if holder is None:
+                    continue
+                j = [j for j, z in enumerate(holder) if isinstance(z, ast.Expr) and isinstance(z.value, ast.Call) and isinstance(z.value.func, ast.Name) and z.value.func.id == '__yield_%d__' % K]
+                if len(j) != 1:
+                    continue
+                E = holder[j[0]].value.args[0]
+                body = st.orelse
+                body[0].value = E
+                holder[j[0]:j[0] + 1] = body
+                blk[i:i + 1] = st.body
+                del self.saved[K]
+                done = again = True
+                break
+        if done:
+            ast.fix_missing_locations(self.tree)
+        return done
+
+    def revert(self):
+        """markers that were never expanded: the loop as written; the unused procedure copies are removed"""
+        for blk, i, st, K in list(self._markers()):
+            if K in self.saved:
+                blk[i] = self.saved[K][0]
+        names = {v[1] for v in self.saved.values()} | {'%s' % p.name for _, _, p in getattr(self, 'pending', [])}
+        for c in [self.tree] + [n for n in self.tree.body if isinstance(n, ast.ClassDef)]:
+            for fn in list(c.body):
+                if isinstance(fn, ast.FunctionDef) and fn.name in names:
+                    refs = sum(1 for x in ast.walk(self.tree) if (isinstance(x, ast.Name) and x.id == fn.name) or (isinstance(x, ast.Attribute) and x.attr == fn.name))
+                    if refs == 0:
+                        c.body.remove(fn)
+        # generators all of whose consumers were spliced and that nothing references any more are dropped
+        for c, fn, _p in getattr(self, 'pending', []):
+            if fn in c.body:
+                refs = sum(1 for x in ast.walk(self.tree) if (isinstance(x, ast.Name) and x.id == fn.name) or (isinstance(x, ast.Attribute) and x.attr == fn.name))
+                if refs == 0:
+                    c.body.remove(fn)
+        ast.fix_missing_locations(self.tree)
+
+
 def _tail_recursion_to_loops(tree):
     """a private function all of whose recursive calls are tail calls `return _f(args)` becomes a loop:
          def _f(p, q): if C: return _f(E1, E2) ; return R        ->      def _f(p, q): while C: p, q = E1, E2 ; return R
@@ -1920,11 +2171,16 @@ def normalize_module(tree, modname):
     devirt.tuple_records(tree)
     devirt.devirtualize(tree)
     _expand_private_contextmanagers(tree)
+    gl = GeneratorLoops(tree)
+    gl.prepare()
     _private_generators_to_lists(tree)
     spell.visit(tree)
     apply_simple_decorators(tree)
     inl = Inliner(tree)
+    inl.after_run = gl.splice
     lower.lower_module(tree, inl, extra_passes=(lambda t: spell.visit(t), lambda t: UnrollLiteral().visit(t), lambda t: UnrollComp().visit(t)))
+    gl.splice()
+    gl.revert()
     if inl.helpers or inl.methods:
         _drop_dead_helpers(tree, inl)
     IfAssign().visit(tree)         # after inlining: a helper `return a if c else b` is inlined as an expression first
